@@ -27,9 +27,22 @@ def written_order_program(rng):
 
     def expr(d):
         """an int32 expression"""
-        k = rng.randrange(11) if d > 0 else 0
+        k = rng.randrange(13) if d > 0 else 0
         if k == 0:
             return probe()
+        if k == 11:
+            # the callee is itself an expression with an effect: it is evaluated before the arguments
+            n[0] += 1
+            t = "sel%d" % n[0]
+            out.append(t)
+            a = expr(d - 1)
+            return 'sel("%s")(%s)' % (t, a)
+        if k == 12:
+            n[0] += 1
+            t = "idx%d" % n[0]
+            out.append(t)
+            a = expr(d - 1)
+            return 'array_get([id1, id1], pi("%s", 1))(%s)' % (t, a)
         if k == 1:
             return "add3(%s, %s, %s)" % (expr(d - 1), expr(d - 1), expr(d - 1))
         if k == 2:
@@ -62,7 +75,7 @@ def written_order_program(rng):
     stmts = ["    let _ = %s;" % expr(rng.choice([1, 2, 2, 3])) for _ in range(rng.randint(1, 3))]
     import genprog
 
-    src = (genprog.PRELUDE + "fn add3(a: int32, b: int32, c: int32) -> int32 { a + b + c }\nimpl P { fn sum2(self: P, n: int32) -> int32 { self.a + n } }\n"
+    src = (genprog.PRELUDE + "fn add3(a: int32, b: int32, c: int32) -> int32 { a + b + c }\nfn id1(x: int32) -> int32 { x }\nfn sel(t: string) -> (int32) -> int32 { let _ = string_println(t); id1 }\nimpl P { fn sum2(self: P, n: int32) -> int32 { self.a + n } }\n"
            "trait Tick2 { fn addq(Self, int32) -> int32; }\nimpl Tick2 for int32 { fn addq(self: int32, n: int32) -> int32 { self + n } }\nfn main() {\n" + "\n".join(stmts).replace("Tick::addq", "Tick2::addq") + "\n    ()\n}\n")
     return src, ("".join(t + "\n" for t in out)).encode()
 
